@@ -605,6 +605,18 @@ Definition env_wf (e : env) : bool :=
   nodupb (map snd (e_types e)) && nodupb (map snd (e_rels e)) &&
   forallb (fun kv => negb (forbidden (fst kv))) (e_conds e).
 
+(* representation invariants: parameter lists and contexts are maps (distinct keys) *)
+Fixpoint keys_nodup {A : Type} (l : list (bytes * A)) : bool :=
+  match l with
+  | [] => true
+  | (k, _) :: l' => negb (existsb (fun kv => beqb (fst kv) k) l') && keys_nodup l'
+  end.
+
+Definition cds_wf (cds : cdefs) : bool := forallb (fun x => keys_nodup (snd x)) cds.
+
+Definition rt_wf (w : rtuple) : bool :=
+  match rt_cond w with Some wc => keys_nodup (wc_ctx wc) | None => true end.
+
 (* ------------------------------------------------------------------------------------------ *)
 (* What the oracle calls                                                                       *)
 
